@@ -42,6 +42,9 @@ def is_generator(node):
     return r
 
 
+_DEBUG_STACK = [] if os.environ.get("VSX_SLICE_DEBUG") else None
+
+
 class Frame:
     __slots__ = ("locals", "globs", "func", "entry_g", "ret", "ret_g", "loops", "closure", "cls", "globals_declared", "nonlocals_declared",
                  "yields")
@@ -71,7 +74,7 @@ class Loop:
 
 class Stats:
     FIELDS = ("paths", "queries", "cache_hits", "solver_s", "forks", "obligations", "discharged", "trivial",
-              "merges", "commits", "value_forks", "aborted")
+              "merges", "commits", "value_forks", "aborted", "sliced")
 
     def __init__(self):
         for f in self.FIELDS:
@@ -139,6 +142,11 @@ class Engine:
         self.second_budget = 0
         self.second = {}
         self.qcache = {}
+        self.slicing = not os.environ.get("VSX_NO_SLICE")
+        self._vars_memo = {}
+        self._vars_keep = []
+        self._part_cache = None
+        self._glit_cache = None
         self.pc_hash = 0
         self.pc_refs = []
         from . import builtins as _b
@@ -157,7 +165,20 @@ class Engine:
                 return hit[0]
         t = time.time()
         self.stats.queries += 1
+        if extra and not need_model and self.slicing:
+            # cone of influence: a query that is unsatisfiable together with the assertions that share variables
+            # with it (transitively) is unsatisfiable with all of them; anything else falls through to the full query
+            rs = self._check_sliced(extra)
+            if rs is not None:
+                self.stats.solver_s += time.time() - t
+                if len(self.qcache) < 2000000:
+                    self.qcache[key] = (rs, extra)
+                return rs
+        t1 = time.time()
         r = self.solver.check(*extra)
+        if os.environ.get("VSX_SLICE_DEBUG") == "4" and time.time() - t1 > 0.05:
+            import sys as _s
+            _s.stderr.write("FULL %.2fs (sliced part %.2fs) %s\n" % (time.time() - t1, t1 - t, " | ".join(str(e)[:200].replace("\n", " ") for e in extra)[:500]))
         self.stats.solver_s += time.time() - t
         if r == z3.unknown:
             raise Inconclusive(f"solver returned unknown ({self.solver.reason_unknown()})")
@@ -165,6 +186,158 @@ class Engine:
         if len(self.qcache) < 2000000:
             self.qcache[key] = (res, extra)      # keeping the terms alive keeps their ids unique
         return res
+
+    SLICE_MIN = int(os.environ.get("VSX_SLICE_MIN", "40"))      # assertion-stack size from which slicing is tried
+
+    def term_vars(self, e):
+        """ids of the uninterpreted constants of a term (memoised per term id; terms are kept alive by pc_refs / qcache)"""
+        memo = self._vars_memo
+        i = e.get_id()
+        r = memo.get(i)
+        if r is not None:
+            return r
+        out = set()
+        seen = set()
+        stack = [e]
+        while stack:
+            t = stack.pop()
+            ti = t.get_id()
+            if ti in seen:
+                continue
+            seen.add(ti)
+            sub = memo.get(ti)
+            if sub is not None:
+                out |= sub
+                continue
+            if z3.is_const(t):
+                if t.decl().kind() == z3.Z3_OP_UNINTERPRETED:
+                    out.add(ti)
+                continue
+            stack.extend(t.children())
+        r = frozenset(out)
+        memo[i] = r
+        self._vars_keep.append(e)
+        return r
+
+    def _partition(self):
+        """variable-connectivity partition of the current assertion stack (memoised per stack fingerprint):
+        -> (assertions, per-assertion variable sets, union-find parent map over variable ids)"""
+        pc = self._part_cache
+        if pc is not None and pc[0] == self.pc_hash:
+            return pc[1]
+        asserts = list(self.solver.assertions())
+        avars = [self.term_vars(a) for a in asserts]
+        parent = {}
+
+        def find(x):
+            while parent.setdefault(x, x) != x:
+                parent[x] = parent[parent[x]]
+                x = parent[x]
+            return x
+        for vs in avars:
+            it = iter(vs)
+            first = next(it, None)
+            if first is None:
+                continue
+            r = find(first)
+            for v in it:
+                rv = find(v)
+                if rv != r:
+                    parent[rv] = r
+        part = (asserts, avars, parent)
+        self._part_cache = (self.pc_hash, part)
+        return part
+
+    def _check_sliced(self, extra):
+        """Exact decomposition of sat(assertions + extra) along variable-disjoint components:
+        the conjunction is satisfiable iff every component (its assertions plus the conjuncts of `extra` that
+        touch it) is satisfiable on its own.  Returns True / False, or None when there is nothing to gain
+        (a single component) or a sub-query came back unknown - the caller then asks the full query."""
+        if len(self.solver.assertions()) < self.SLICE_MIN:
+            return None
+        asserts, avars, parent0 = self._partition()
+        # conjuncts of the query
+        conj = []
+        stack = list(extra)
+        while stack:
+            t = stack.pop()
+            if z3.is_and(t):
+                stack.extend(t.children())
+            elif z3.is_true(t):
+                continue
+            elif z3.is_false(t):
+                return False
+            elif z3.is_not(t) and z3.is_or(t.arg(0)):
+                stack.extend(z3.Not(c) for c in t.arg(0).children())       # de Morgan: one conjunct per disjunct
+            elif z3.is_not(t) and z3.is_not(t.arg(0)):
+                stack.append(t.arg(0).arg(0))
+            else:
+                conj.append(t)
+        cvars = [self.term_vars(c) for c in conj]
+        parent = dict(parent0)
+
+        def find(x):
+            while parent.setdefault(x, x) != x:
+                parent[x] = parent[parent[x]]
+                x = parent[x]
+            return x
+        for vs in cvars:
+            it = iter(vs)
+            first = next(it, None)
+            if first is None:
+                continue
+            r = find(first)
+            for v in it:
+                rv = find(v)
+                if rv != r:
+                    parent[rv] = r
+        groups = {}
+        for k, vs in enumerate(avars):
+            if vs:
+                groups.setdefault(find(next(iter(vs))), [[], []])[0].append(k)
+            else:
+                groups.setdefault(None, [[], []])[0].append(k)
+        for k, vs in enumerate(cvars):
+            if vs:
+                groups.setdefault(find(next(iter(vs))), [[], []])[1].append(k)
+            else:
+                groups.setdefault(None, [[], []])[1].append(k)
+        if len(groups) <= 1:
+            if os.environ.get("VSX_SLICE_DEBUG") == "3":
+                import sys as _s
+                _s.stderr.write("ONEGROUP conj=%d stack=%s\n" % (len(conj), "/".join(_DEBUG_STACK or [])))
+                if os.environ.get("VSX_SLICE_FULL"):
+                    for c in conj:
+                        _s.stderr.write("   CONJ %s\n" % " ".join(str(c).split()))
+            return None
+        if os.environ.get("VSX_SLICE_DEBUG"):
+            import sys as _s
+            _s.stderr.write("slice n=%d groups=%d conj=%d\n" % (len(asserts), len(groups), len(conj)))
+        # components that the query touches first: they are the ones that can turn out unsatisfiable
+        order = sorted(groups.items(), key=lambda kv: (0 if kv[1][1] else 1))
+        for root, (aidx, cidx) in order:
+            key = ("slice", frozenset(asserts[k].get_id() for k in aidx), frozenset(conj[k].get_id() for k in cidx))
+            hit = self.qcache.get(key)
+            if hit is None:
+                s2 = z3.SimpleSolver()
+                s2.set("timeout", min(self.solver_timeout_ms, 30000))
+                for k in aidx:
+                    s2.add(asserts[k])
+                for k in cidx:
+                    s2.add(conj[k])
+                self.stats.sliced += 1
+                r = s2.check()
+                if r == z3.unknown:
+                    if os.environ.get("VSX_SLICE_DEBUG"):
+                        import sys as _s
+                        _s.stderr.write("SUBUNKNOWN %s\n" % s2.reason_unknown())
+                    return None
+                hit = (r == z3.sat, [conj[k] for k in cidx])
+                if len(self.qcache) < 2000000:
+                    self.qcache[key] = hit
+            if not hit[0]:
+                return False
+        return True
 
     def add_pc(self, e):
         self.solver.add(e)
@@ -243,6 +416,38 @@ class Engine:
         self.commit()
         return self._fork(c.e)
 
+    def guard_literals(self):
+        """ids of the conjuncts of the current guard (memoised per guard term)"""
+        g = self.g
+        gi = g.get_id()
+        c = self._glit_cache
+        if c is not None and c[0] == gi:
+            return c[1]
+        ids = set(t.get_id() for t in g_conj(g))
+        self._glit_cache = (gi, ids, g)
+        return ids
+
+    def peel(self, e):
+        """Resolve the outer If-nodes of a merged value whose conditions the current guard decides *syntactically*
+        (every conjunct of the condition is a conjunct of the guard, or one of them is negated there).  A variable
+        assigned under a guard reads as ite(guard, new, old); inside the region that guard holds, so the read is
+        `new` - no solver needed.  Purely an optimisation: the result is equal to e under the guard."""
+        if self.g is True or self.g is False or os.environ.get("VSX_NO_PEEL"):
+            return e
+        lits = None
+        while z3.is_app_of(e, z3.Z3_OP_ITE):
+            if lits is None:
+                lits = self.guard_literals()
+            c = e.arg(0)
+            parts = g_conj(c)
+            if all(t.get_id() in lits for t in parts):
+                e = e.arg(1)
+            elif any(g_not(t).get_id() in lits for t in parts):
+                e = e.arg(2)
+            else:
+                break
+        return e
+
     def concretize(self, v):
         """A concrete int for v on this path (value-forking)."""
         if isinstance(v, bool):
@@ -255,7 +460,7 @@ class Engine:
             return int(self.decide(v))
         if not isinstance(v, SymInt):
             raise Unsupported(f"concretize {type(v).__name__}")
-        e = z3.simplify(v.e)
+        e = z3.simplify(self.peel(v.e))
         if z3.is_int_value(e):
             return e.as_long()
         g = self.g
@@ -851,6 +1056,12 @@ class Engine:
                 v = f.locals[name]
                 if isinstance(v, CondDef):
                     v = self.read_conddef(name, v)
+                if isinstance(v, SymInt) and self.g is not True and z3.is_app_of(v.e, z3.Z3_OP_ITE):
+                    pe = self.peel(v.e)
+                    if pe is not v.e:
+                        if z3.is_int_value(pe):
+                            return pe.as_long()
+                        return SymInt(pe, v.w)
                 return v
             f = f.closure
             while f is not None and f.cls is not None:    # class bodies are not enclosing scopes
@@ -946,7 +1157,7 @@ class Engine:
         if e is esc_before or e is False:
             g = g0
         else:
-            g = g_norm(g_and(g0, g_not(e)))
+            g = g_minus(g0, e)
         self.revive(g, was_dead)
 
     def run_guarded(self, g, body_fn):
@@ -1009,7 +1220,7 @@ class Engine:
                 if lp.brk is False and fr.ret_g is ret0:
                     g = g0
                 else:
-                    g = g_norm(g_and(g0, g_not(g_or(lp.brk, fr.ret_g))))
+                    g = g_minus(g0, g_or(lp.brk, fr.ret_g))
                 try:
                     self.revive(g, dead)
                 except DeadBranch:
@@ -1032,12 +1243,12 @@ class Engine:
         finally:
             fr.loops.pop()
         if st.orelse:
-            ge = g_norm(g_and(g0, g_not(g_or(lp.brk, fr.ret_g)))) if (lp.brk is not False or fr.ret_g is not ret0) else g0
+            ge = g_minus(g0, g_or(lp.brk, fr.ret_g)) if (lp.brk is not False or fr.ret_g is not ret0) else g0
             if ge is not False:
                 esc_e = self.esc()
                 _, d2 = self.run_guarded(ge, lambda: self.exec_block(st.orelse))
                 dead = dead or d2
-        g = g0 if fr.ret_g is ret0 else g_norm(g_and(g0, g_not(fr.ret_g)))
+        g = g0 if fr.ret_g is ret0 else g_minus(g0, fr.ret_g)
         self.revive(g, dead)
 
     def x_For(self, st):
@@ -1054,7 +1265,7 @@ class Engine:
                     g = g0
                     chk = dead
                 else:
-                    g = g_norm(g_and(g0, g_not(g_or(lp.brk, fr.ret_g))))
+                    g = g_minus(g0, g_or(lp.brk, fr.ret_g))
                     chk = True
                 try:
                     self.revive(g, chk)
@@ -1071,11 +1282,11 @@ class Engine:
         finally:
             fr.loops.pop()
         if st.orelse:
-            ge = g_norm(g_and(g0, g_not(g_or(lp.brk, fr.ret_g)))) if (lp.brk is not False or fr.ret_g is not ret0) else g0
+            ge = g_minus(g0, g_or(lp.brk, fr.ret_g)) if (lp.brk is not False or fr.ret_g is not ret0) else g0
             if ge is not False:
                 _, d2 = self.run_guarded(ge, lambda: self.exec_block(st.orelse))
                 dead = dead or d2
-        g = g0 if fr.ret_g is ret0 else g_norm(g_and(g0, g_not(fr.ret_g)))
+        g = g0 if fr.ret_g is ret0 else g_minus(g0, fr.ret_g)
         self.revive(g, dead)
 
     def x_Raise(self, st):
@@ -2377,6 +2588,8 @@ class Engine:
             self.commit()
             fr.yields = []
         self.depth += 1
+        if _DEBUG_STACK is not None:
+            _DEBUG_STACK.append(f.qual)
         if self.depth > self.CALL_DEPTH:
             raise Inconclusive("call depth bound exceeded")
         self.frame = fr
@@ -2396,6 +2609,8 @@ class Engine:
         finally:
             self.frame = caller
             self.depth -= 1
+            if _DEBUG_STACK is not None:
+                _DEBUG_STACK.pop()
             self.region_serial = saved_region
         self.g = g_call
         if fr.yields is not None:
@@ -2404,7 +2619,7 @@ class Engine:
             return None
         if fr.ret_g is True or fr.ret_g is g_call:
             return fr.ret
-        rem = g_norm(g_and(g_call, g_not(fr.ret_g)))
+        rem = g_minus(g_call, fr.ret_g)
         if rem is False or not self.feasible(rem):
             return fr.ret
         # some paths fall off the end (None) while others returned a value
